@@ -6,19 +6,23 @@ Purpose: de-risk the central proof of DESIGN.md §3/§4-C01. A verdict-level mod
 minimum/maximum with exclusive flags and the nil-dereference panic as outcome `none`,
 minLength, required, properties, additionalProperties (bool | schema), items,
 allOf/anyOf/oneOf/not, the `IsEmpty` shortcut, the "null after a composition" rule),
-a declarative spec `Sat`, and the theorem
+a declarative spec `Sat`, its executable twin `satB` (the oracle the driver evaluates), and
 
-    main : Clean s → visit s v = some b → (b = true ↔ Sat s v)
+    main     : Clean s → visit s v = some b → (b = true ↔ Sat s v)
+    satB_iff : satB s v = true ↔ Sat s v
 
 where `Clean` is the exclusion "no non-trivial schema takes the IsEmpty shortcut"
-(finding #1 of DESIGN §7). Checked with Lean 4.33.0, core only, `lake build` ≈ 35 s;
+(finding #1 of DESIGN §7). Checked with Lean 4.33.0, core only, `lake build` ≈ 30 s;
 axioms: propext, Classical.choice, Quot.sound.
 
 Engineering lessons (see DESIGN §9): recursion is well-founded on (sizeOf value, sizeOf schema)
 and is accepted without hints; keep all non-recursive logic outside the `mutual` block
-(`combine`, `bor`, `addCount`, `propRes`); use `visit.eq_def`/`unfold`, not `rw [visit]`
-(equation-lemma generation times out); prove with `visit.mutual_induct` and explicit motives;
-compose keyword equivalences with `band_iff`.
+(`combine`, `combineB`, `bor`, `addCount`, `propRes`) — in particular NO `let` shared across
+branches inside a recursive definition: `satB` written with `let comps := …` made the generated
+`satB.mutual_induct` fail in the kernel ("declaration has free variables"); use
+`visit.eq_def`/`unfold`, not `rw [visit]` (equation-lemma generation times out); prove with
+`f.mutual_induct` and explicit motives; compose keyword equivalences with `band_iff` /
+`combineB_iff`; `generalize` a Boolean sub-expression before `simp` to stop it being re-associated.
 
 To re-check:  lake new P lib && cp this file to P/P/Basic.lean && cd P && lake build
 -/
@@ -530,5 +534,178 @@ theorem main :
     · simp at e1; simp [e1, e2]
 
 #print axioms main
-end K
 
+/-! ### The executable twin of the specification (the oracle the driver evaluates) -/
+
+def typeKwOKB (kw : Kw) (i : Option S) : J → Bool
+  | .null => false
+  | .bool _ => kw.permits .boolean
+  | .num q => kw.permits .number &&
+      (match kw.minimum with | some m => decide (m ≤ q) && (!kw.exclMin || decide (m < q)) | none => true) &&
+      (match kw.maximum with | some m => decide (q ≤ m) && (!kw.exclMax || decide (q < m)) | none => true)
+  | .str s => kw.permits .string && decide (kw.minLength ≤ s.length)
+  | .arr _ => kw.permits .array
+  | .obj kvs => kw.permits .object && kw.required.all (fun k => (lookup k kvs).isSome)
+
+theorem typeKwOKB_iff (kw : Kw) (i : Option S) (v : J) : typeKwOKB kw i v = true ↔ typeKwOK kw i v := by
+  cases v with
+  | null => simp [typeKwOKB, typeKwOK]
+  | bool b => simp [typeKwOKB, typeKwOK]
+  | num q =>
+    simp only [typeKwOKB, typeKwOK, Bool.and_eq_true]
+    cases hmn : kw.minimum <;> cases hmx : kw.maximum <;> cases hem : kw.exclMin <;> cases hex : kw.exclMax <;>
+      simp [and_assoc]
+  | str s => simp [typeKwOKB, typeKwOK]
+  | arr xs => simp [typeKwOKB, typeKwOK]
+  | obj kvs => simp [typeKwOKB, typeKwOK, List.all_eq_true]
+
+/-- non-recursive combination, same shape as the `Sat` clause -/
+def combineB (kw : Kw) (a b c : List S) (i : Option S) (v : J)
+    (rNot : Bool) (rCount : Nat) (rAny rAll rChild : Bool) : Bool :=
+  if v.isNull then
+    kw.permitsNull || ((!a.isEmpty || !b.isEmpty || !c.isEmpty) &&
+      (rNot && (c.isEmpty || rCount == 1) && (b.isEmpty || rAny) && rAll))
+  else
+    (rNot && (c.isEmpty || rCount == 1) && (b.isEmpty || rAny) && rAll) && typeKwOKB kw i v && rChild
+
+mutual
+def satB : S → J → Bool
+  | .mk kw a b c n i p ad, v =>
+    combineB kw a b c i v
+      (match n with | none => true | some t => !satB t v)
+      (satCountB c v) (satAnyB b v) (satAllB a v)
+      (match v with
+       | .arr xs => (match i with | none => true | some t => satItemsB t xs)
+       | .obj kvs => satPropsB p ad kw.addHas kvs
+       | _ => true)
+termination_by s v => (sizeOf v, sizeOf s)
+def satAllB : List S → J → Bool
+  | [], _ => true
+  | s :: ss, v => satB s v && satAllB ss v
+termination_by ss v => (sizeOf v, sizeOf ss)
+def satAnyB : List S → J → Bool
+  | [], _ => false
+  | s :: ss, v => satB s v || satAnyB ss v
+termination_by ss v => (sizeOf v, sizeOf ss)
+def satCountB : List S → J → Nat
+  | [], _ => 0
+  | s :: ss, v => (if satB s v then 1 else 0) + satCountB ss v
+termination_by ss v => (sizeOf v, sizeOf ss)
+def satItemsB : S → List J → Bool
+  | _, [] => true
+  | s, x :: xs => satB s x && satItemsB s xs
+termination_by s xs => (sizeOf xs, sizeOf s)
+def satPropsB : List (List Char × S) → Option S → Option Bool → List (List Char × J) → Bool
+  | _, _, _, [] => true
+  | p, ad, has, (k, x) :: r =>
+    (match lookup k p with
+     | some s => satB s x
+     | none => has != some false && (match ad with | some s => satB s x | none => true)) &&
+    satPropsB p ad has r
+termination_by p ad _ kvs => (sizeOf kvs, sizeOf p + sizeOf ad)
+end
+
+
+theorem satCount_unique : ∀ (ss : List S) (v : J) (m n : Nat), SatCount ss v m → SatCount ss v n → m = n := by
+  intro ss v
+  induction ss with
+  | nil => intro m n hm hn; rw [SatCount] at hm hn; omega
+  | cons s ss ih =>
+    intro m n hm hn
+    rw [SatCount] at hm hn
+    rcases hm with ⟨h1, m', rfl, hm'⟩ | ⟨h1, hm'⟩ <;> rcases hn with ⟨h2, n', rfl, hn'⟩ | ⟨h2, hn'⟩
+    · rw [ih _ _ hm' hn']
+    · exact absurd h1 h2
+    · exact absurd h2 h1
+    · exact ih _ _ hm' hn'
+
+theorem combineB_iff (kw : Kw) (a b c : List S) (i : Option S) (v : J)
+    (rNot : Bool) (rCount : Nat) (rAny rAll rChild : Bool) (PNot PCount PAny PAll PChild : Prop)
+    (hNot : rNot = true ↔ PNot) (hCnt : rCount = 1 ↔ PCount) (hAny : rAny = true ↔ PAny)
+    (hAll : rAll = true ↔ PAll) (hChild : rChild = true ↔ PChild) :
+    combineB kw a b c i v rNot rCount rAny rAll rChild = true ↔
+      (if v.isNull = true then
+        kw.permitsNull = true ∨ ((a ≠ [] ∨ b ≠ [] ∨ c ≠ []) ∧ (PNot ∧ (c = [] ∨ PCount) ∧ (b = [] ∨ PAny) ∧ PAll))
+       else
+        (PNot ∧ (c = [] ∨ PCount) ∧ (b = [] ∨ PAny) ∧ PAll) ∧ typeKwOK kw i v ∧ PChild) := by
+  have hcomps : (rNot && (c.isEmpty || rCount == 1) && (b.isEmpty || rAny) && rAll) = true ↔
+      (PNot ∧ (c = [] ∨ PCount) ∧ (b = [] ∨ PAny) ∧ PAll) := by
+    simp only [Bool.and_eq_true, Bool.or_eq_true, isEmpty_list_iff, beq_iff_eq, hNot, hCnt, hAny, hAll]
+    constructor
+    · rintro ⟨⟨⟨x1, x2⟩, x3⟩, x4⟩; exact ⟨x1, x2, x3, x4⟩
+    · rintro ⟨x1, x2, x3, x4⟩; exact ⟨⟨⟨x1, x2⟩, x3⟩, x4⟩
+  unfold combineB
+  generalize (rNot && (c.isEmpty || rCount == 1) && (b.isEmpty || rAny) && rAll) = comps at hcomps ⊢
+  by_cases hn : v.isNull = true
+  · simp only [hn, if_true, Bool.or_eq_true, Bool.and_eq_true, hcomps]
+    simp [isEmpty_list_iff, or_assoc]
+  · have hn' : v.isNull = false := by simpa using hn
+    simp only [hn', Bool.false_eq_true, if_false, Bool.and_eq_true]
+    rw [hcomps, typeKwOKB_iff, hChild]
+    exact and_assoc
+
+/-- the executable oracle agrees with the declarative specification -/
+theorem satB_iff :
+    (∀ s v, satB s v = true ↔ Sat s v) ∧
+    (∀ p ad has kvs, satPropsB p ad has kvs = true ↔ SatProps p ad has kvs) ∧
+    (∀ s xs, satItemsB s xs = true ↔ SatItems s xs) ∧
+    (∀ ss v, satAllB ss v = true ↔ SatAll ss v) ∧
+    (∀ ss v, satAnyB ss v = true ↔ SatAny ss v) ∧
+    (∀ ss v, SatCount ss v (satCountB ss v)) := by
+  refine satB.mutual_induct
+    (motive1 := fun s v => satB s v = true ↔ Sat s v)
+    (motive2 := fun p ad has kvs => satPropsB p ad has kvs = true ↔ SatProps p ad has kvs)
+    (motive3 := fun s xs => satItemsB s xs = true ↔ SatItems s xs)
+    (motive4 := fun ss v => satAllB ss v = true ↔ SatAll ss v)
+    (motive5 := fun ss v => satAnyB ss v = true ↔ SatAny ss v)
+    (motive6 := fun ss v => SatCount ss v (satCountB ss v))
+    ?node ?pnil ?pcons ?inil ?icons ?anil ?acons ?ynil ?ycons ?cnil ?ccons
+  case node =>
+    intro kw a b c n i p ad v ihn ih6 ih5 ih4 ihc
+    rw [satB.eq_def, Sat.eq_def]
+    simp only
+    refine combineB_iff kw a b c i v _ _ _ _ _ _ _ _ _ _ ?_ ?_ ih5 ih4 ?_
+    · cases n with
+      | none => simp
+      | some t => simp only at ihn; simp [← ihn]
+    · exact ⟨fun h => h ▸ ih6, fun h => satCount_unique c v _ _ ih6 h⟩
+    · cases v with
+      | arr xs =>
+        cases i with
+        | none => simp
+        | some t => simp only at ihc; simp [ihc]
+      | obj kvs => simp only at ihc; simpa using ihc
+      | null => simp
+      | bool x => simp
+      | num q => simp
+      | str x => simp
+  case pnil => intro p ad has; simp [satPropsB, SatProps]
+  case pcons =>
+    intro p ad has k x r ih1 ih2 ih3
+    rw [satPropsB.eq_def, SatProps]
+    simp only [Bool.and_eq_true, ih3]
+    cases hl : lookup k p with
+    | some s => simp [ih1 s]
+    | none =>
+      cases ad with
+      | none => simp
+      | some s => simp only at ih2; simp [ih2]
+  case inil => intro s; simp [satItemsB, SatItems]
+  case icons => intro s x xs ih1 ih2; rw [satItemsB, SatItems]; simp [ih1, ih2]
+  case anil => intro v; simp [satAllB, SatAll]
+  case acons => intro s ss v ih1 ih2; rw [satAllB, SatAll]; simp [ih1, ih2]
+  case ynil => intro v; simp [satAnyB, SatAny]
+  case ycons => intro s ss v ih1 ih2; rw [satAnyB, SatAny]; simp [ih1, ih2]
+  case cnil => intro v; simp [satCountB, SatCount]
+  case ccons =>
+    intro s ss v ih1 ih2
+    rw [satCountB, SatCount]
+    cases hs : satB s v with
+    | true => left; exact ⟨ih1.mp hs, satCountB ss v, by simp; omega, ih2⟩
+    | false =>
+      right
+      refine ⟨fun h => ?_, by simpa using ih2⟩
+      have := ih1.mpr h; simp [hs] at this
+
+#print axioms satB_iff
+end K
